@@ -182,3 +182,7 @@ pub mod mania;
 
 /// Types used in and around this crate.
 pub mod model;
+
+/// Verification hooks; only present with `--cfg rosu_pp_verif`.
+#[cfg(rosu_pp_verif)]
+pub mod verif;
